@@ -465,6 +465,75 @@ Proof.
   apply andb_true_iff in H. destruct H. destruct a; try discriminate. simpl. auto.
 Qed.
 
+(* evaluation of single labels *)
+Ltac ev_tac H := unfold step, step_common; rewrite H; reflexivity.
+
+Lemma ev_Call : forall s d p, nth_error (disp s) d = Some DIdle ->
+  step s (ECall d p) = Some (add_job (set_d s d (DTry (length (jobs s)))) (mk_job d p 0)).
+Proof. intros s d p H. ev_tac H. Qed.
+
+Lemma ev_TrySendFull : forall s d j, nth_error (disp s) d = Some (DTry j) -> any_recv s = false ->
+  step s (ETrySendFull d) = Some (set_d s d (DFull j)).
+Proof. intros s d j H R. unfold step, step_common. rewrite H, R. reflexivity. Qed.
+
+Lemma ev_TrySendOk : forall s d w j, nth_error (disp s) d = Some (DTry j) ->
+  nth_error (work s) w = Some WRecv ->
+  step s (ETrySendOk d w) = Some (set_w (set_d s d DIdle) w (WRun j)).
+Proof. intros s d w j H R. unfold step, step_common. rewrite H, R. reflexivity. Qed.
+
+Lemma ev_CheckOk : forall s d j, nth_error (disp s) d = Some (DFull j) -> counter s < limit s ->
+  step s (ECheckOk d) = Some (set_counter (set_d s d (DSpawn j)) (S (counter s))).
+Proof.
+  intros s d j H R. unfold step. rewrite H.
+  destruct (limit s =? 0) eqn:E0. { apply Nat.eqb_eq in E0. lia. }
+  destruct (counter s <? limit s) eqn:E1; auto. apply Nat.ltb_ge in E1. lia.
+Qed.
+
+Lemma ev_CheckFail : forall s d j, nth_error (disp s) d = Some (DFull j) ->
+  1 <= limit s -> limit s <= counter s ->
+  step s (ECheckFail d) = Some (set_d s d (DRejected j)).
+Proof.
+  intros s d j H L R. unfold step, step_common. rewrite H.
+  destruct (limit s =? 0) eqn:E0. { apply Nat.eqb_eq in E0. lia. }
+  destruct (limit s <=? counter s) eqn:E1; auto. apply Nat.leb_gt in E1. lia.
+Qed.
+
+Lemma ev_Spawn : forall s d j, nth_error (disp s) d = Some (DSpawn j) ->
+  step s (ESpawn d) = Some (add_worker (set_d s d DIdle) (WRun j)).
+Proof. intros s d j H. unfold step. rewrite H. reflexivity. Qed.
+
+Lemma ev_Retry : forall s d j, nth_error (disp s) d = Some (DRejected j) ->
+  step s (ERetry d) = Some (set_d s d (DTry j)).
+Proof. intros s d j H. ev_tac H. Qed.
+
+Lemma ev_Start : forall s w j x, nth_error (work s) w = Some (WRun j) ->
+  nth_error (jobs s) j = Some x ->
+  step s (EStart w) = Some (set_jobs (set_w s w (WRunning j)) (upd (jobs s) j (started x))).
+Proof. intros s w j x H R. unfold step, step_common. rewrite H, R. reflexivity. Qed.
+
+Lemma ev_End : forall s w j x, nth_error (work s) w = Some (WRunning j) ->
+  nth_error (jobs s) j = Some x ->
+  step s (EEnd w) = Some (add_completed (set_w s w WLoop) (owner x, j, panics x)).
+Proof. intros s w j x H R. unfold step, step_common. rewrite H, R. reflexivity. Qed.
+
+Lemma ev_RecvEnter : forall s w, nth_error (work s) w = Some WLoop ->
+  step s (ERecvEnter w) = Some (set_w s w WRecv).
+Proof. intros s w H. unfold step. rewrite H. reflexivity. Qed.
+
+Lemma ev_Timeout : forall s w, nth_error (work s) w = Some WRecv ->
+  step s (ETimeout w) = Some (set_w s w WExiting).
+Proof. intros s w H. ev_tac H. Qed.
+
+Lemma ev_GuardDrop : forall s w c, nth_error (work s) w = Some WExiting -> counter s = S c ->
+  step s (EGuardDrop w) = Some (set_counter (set_w s w WExited) c).
+Proof. intros s w c H R. unfold step, step_common. rewrite H, R. reflexivity. Qed.
+
+Ltac fld := unfold add_job, set_d, set_w, set_counter, add_worker, set_jobs, add_completed;
+  cbn [limit counter disp work jobs completed].
+
+Lemma steps_cons : forall s e s1 es, step s e = Some s1 -> steps s (e :: es) = steps s1 es.
+Proof. intros. unfold steps. simpl. rewrite H. reflexivity. Qed.
+
 Lemma retire_then_run : forall l d es s dd p, 1 <= l ->
   steps (init l d) es = Some s ->
   all_exited s = true -> all_idle s = true -> dd < length (disp s) ->
@@ -493,38 +562,44 @@ Proof.
     { eapply sumf_zero_forallb; [|exact Hi]. intros x Hxx. destruct x; simpl in *; congruence. }
     lia. }
   pose proof (all_exited_no_recv _ Hx) as NR.
-  eexists. eexists.
-  split. { unfold step, step_common. rewrite Hdd. reflexivity. }
+  set (s1 := add_job (set_d s dd (DTry j)) (mk_job dd p 0)).
+  set (s2 := set_d s1 dd (DFull j)).
+  set (s3 := set_counter (set_d s2 dd (DSpawn j)) 1).
+  set (s4 := add_worker (set_d s3 dd DIdle) (WRun j)).
+  set (s5 := set_jobs (set_w s4 w (WRunning j)) (upd (jobs s4) j (started (mk_job dd p 0)))).
+  set (s6 := add_completed (set_w s5 w WLoop) (dd, j, p)).
+  assert (D1 : nth_error (disp s1) dd = Some (DTry j)).
+  { unfold s1; fld. eapply nth_error_upd_eq; eauto. }
+  assert (D2 : nth_error (disp s2) dd = Some (DFull j)).
+  { unfold s2; fld. eapply nth_error_upd_eq; eauto. }
+  assert (D3 : nth_error (disp s3) dd = Some (DSpawn j)).
+  { unfold s3; fld. eapply nth_error_upd_eq; eauto. }
+  assert (W4 : nth_error (work s4) w = Some (WRun j)).
+  { unfold s4, s3, s2, s1; fld. apply nth_error_app_last. }
+  assert (J4 : nth_error (jobs s4) j = Some (mk_job dd p 0)).
+  { unfold s4, s3, s2, s1; fld. apply nth_error_app_last. }
+  assert (W5 : nth_error (work s5) w = Some (WRunning j)).
+  { unfold s5; fld. eapply nth_error_upd_eq; eauto. }
+  assert (J5 : nth_error (jobs s5) j = Some (mk_job dd p 1)).
+  { unfold s5; fld. eapply nth_error_upd_eq; eauto. }
+  exists s1, s6.
+  split. { apply ev_Call; auto. }
   split.
-  { intros w'. unfold step, step_common, add_job, set_d; simpl.
-    erewrite nth_error_upd_eq by eauto.
+  { intros w'. unfold step, step_common. rewrite D1.
+    replace (work s1) with (work s) by reflexivity.
     destruct (nth_error (work s) w') eqn:E; auto.
     pose proof (forallb_nth _ _ _ _ _ Hx E). destruct w0; try discriminate; auto. }
-  unfold steps. simpl.
-  (* ETrySendFull *)
-  unfold step at 1, step_common at 1. unfold add_job at 1 2, set_d at 1 2. simpl.
-  erewrite nth_error_upd_eq by eauto.
-  unfold any_recv in *. simpl. rewrite NR.
-  (* ECheckOk *)
-  unfold step at 1. unfold set_d at 1 2 3 4. simpl.
-  erewrite nth_error_upd_eq by (erewrite nth_error_upd_eq by eauto; reflexivity).
-  destruct (limit s =? 0) eqn:E0. { apply Nat.eqb_eq in E0. lia. }
-  rewrite C0. destruct (0 <? limit s) eqn:E1. 2:{ apply Nat.ltb_ge in E1. lia. }
-  (* ESpawn *)
-  unfold step at 1. unfold set_counter at 1, set_d at 1. simpl.
-  erewrite nth_error_upd_eq by (erewrite nth_error_upd_eq by (erewrite nth_error_upd_eq by eauto; reflexivity); reflexivity).
-  (* EStart *)
-  unfold step at 1, step_common at 1. unfold add_worker at 1 2, set_d at 1 2, set_counter at 1 2. simpl.
-  fold w. rewrite nth_error_app_last.
-  fold j. rewrite nth_error_app_last.
-  (* EEnd *)
-  unfold step at 1, step_common at 1. unfold set_jobs at 1 2, set_w at 1 2. simpl.
-  erewrite nth_error_upd_eq by (unfold w; apply nth_error_app_last).
-  erewrite nth_error_upd_eq by (unfold j; apply nth_error_app_last).
-  split; [reflexivity|]. simpl.
-  rewrite !length_upd, app_length. simpl.
-  split; [fold w; lia|].
-  split. { erewrite nth_error_upd_eq; [reflexivity|]. erewrite nth_error_upd_eq; [reflexivity|]. unfold w; apply nth_error_app_last. }
-  split. { erewrite nth_error_upd_eq; [reflexivity|]. unfold j; apply nth_error_app_last. }
+  split.
+  { rewrite (steps_cons _ _ s2). 2:{ apply ev_TrySendFull; auto. }
+    rewrite (steps_cons _ _ s3).
+    2:{ unfold s3. replace 1 with (S (counter s2)) by (unfold s2, s1; fld; lia).
+        apply ev_CheckOk; auto. unfold s2, s1; fld. lia. }
+    rewrite (steps_cons _ _ s4). 2:{ apply ev_Spawn; auto. }
+    rewrite (steps_cons _ _ s5). 2:{ unfold s5. apply ev_Start; auto. }
+    rewrite (steps_cons _ _ s6). 2:{ unfold s6. apply (ev_End s5 w j (mk_job dd p 1)); auto. }
+    reflexivity. }
+  split. { unfold s6, s5, s4, s3, s2, s1; fld. rewrite !length_upd, app_length. simpl. fold w. lia. }
+  split. { unfold s6; fld. eapply nth_error_upd_eq; eauto. }
+  split. { exact J5. }
   reflexivity.
 Qed.
